@@ -176,7 +176,8 @@ def make_traced(cls):
                             "keys": [k.__name__ for k in self.trans_probs.keys()]})
             return pop
 
-        def update_hof(self, population):
+        def update_hof(self, population, *args, **kwargs):
+            # extra arguments (a refactored caller may pass options) are handed through untouched
             ev = {"ev": "update_hof", "gen": self._gen, "pop": self._snap_pop(population, reeval=True),
                   "hof_before": self._snap_hof(), "pop_list": self.keep(population)}
             if self._sample_positions and self._gen < self._sample_positions:
@@ -190,7 +191,7 @@ def make_traced(cls):
                 ev["positions"] = pos
             ev["moves"] = self._moves
             self._moves = []
-            super().update_hof(population)
+            super().update_hof(population, *args, **kwargs)
             ev["hof"] = self._snap_hof(reeval=True)
             self.tr.append(ev)
 
@@ -201,11 +202,11 @@ def make_traced(cls):
                             "after": [float(v) for v in self.trans_probs.values()],
                             "keys": [k.__name__ for k in self.trans_probs.keys()]})
 
-        def update_logs(self, population, iteration):
-            super().update_logs(population, iteration)
+        def update_logs(self, population, iteration, *args, **kwargs):
+            super().update_logs(population, iteration, *args, **kwargs)
             self.tr.append({"ev": "logs", "gen": self._gen, "iteration": int(iteration)})
 
-        def tournament_selection(self, population, k=2):
+        def tournament_selection(self, population, k=2, *args, **kwargs):
             draws = []
             orig = random.choices
 
@@ -217,7 +218,7 @@ def make_traced(cls):
 
             random.choices = recording
             try:
-                new = super().tournament_selection(population, k=k)
+                new = super().tournament_selection(population, *args, k=k, **kwargs)
             finally:
                 random.choices = orig
             self.tr.append({"ev": "tournament", "gen": self._gen, "k": int(k), "draws": draws,
@@ -227,11 +228,11 @@ def make_traced(cls):
             return new
 
         # -- transformations with a candidate list: record the list *in the order the code indexes it*
-        def remove_op(self, circuit, node=None):
+        def remove_op(self, circuit, node=None, *args, **kwargs):
             if node is None:
                 cands = circuit.get_node_exclude_labels(["Fixed", "Input", "Output"])
                 self._moves.append({"t": "remove_op", "c": [str(x) for x in cands]})
-            return super().remove_op(circuit, node)
+            return super().remove_op(circuit, node, *args, **kwargs)
 
         def add_emitter_cnot(self, circuit):
             pairs = type(self)._select_possible_cnot_position(circuit)
@@ -248,10 +249,10 @@ def make_traced(cls):
             self._moves.append({"t": "replace_photon_one_qubit_op", "c": [str(x) for x in cands]})
             return super().replace_photon_one_qubit_op(circuit)
 
-        def save_circuits(self, population, hof, iteration=-1):
+        def save_circuits(self, population, hof, iteration=-1, **kwargs):
             # last per-generation call before the optional selection: used to advance the generation counter when
             # selection is off (tournament_selection is then never called)
-            super().save_circuits(population=population, hof=hof, iteration=iteration)
+            super().save_circuits(population=population, hof=hof, iteration=iteration, **kwargs)
             self.tr.append({"ev": "save", "gen": self._gen})
             if not self.setting.selection_active:
                 self._gen += 1
